@@ -9,6 +9,7 @@ import (
 	"sync"
 	"time"
 
+	"github.com/twmb/franz-go/pkg/kfake"
 	"github.com/twmb/franz-go/pkg/kgo"
 	"github.com/twmb/franz-go/pkg/kmsg"
 	"pgregory.net/rapid"
@@ -19,47 +20,76 @@ import (
 // ---------- plan ----------
 
 type GroupStep struct {
-	Delay  time.Duration
-	Kind   string // join | leave | addtopic | mktopic | addparts | append | force | sleep
-	Slot   int
-	Topic  int
-	N      int
-	Close  bool // leave by Close (true) or LeaveGroup (false)
-	Dur    time.Duration
-	Part   int32
+	Delay time.Duration
+	Kind  string // join | leave | addtopic | mktopic | addparts | append | force | sleep
+	Slot  int
+	Topic int
+	N     int
+	Close bool // leave by Close (true) or LeaveGroup (false)
+	Dur   time.Duration
+	Part  int32
 }
 
 type GroupPlan struct {
-	Brokers   int
-	Protocol  string // range | roundrobin | sticky | coop | 848-uniform | 848-range
-	Topics    []string
-	Parts     []int32
-	Late      []bool // topic created by a later mktopic step, not seeded
-	Regex     bool   // members subscribe with a regex matching all topics
-	Slots     int
+	Brokers    int
+	Protocol   string // range | roundrobin | sticky | coop | 848-uniform | 848-range
+	Topics     []string
+	Parts      []int32
+	Late       []bool // topic created by a later mktopic step, not seeded
+	Regex      bool   // members subscribe with a regex matching all topics
+	Slots      int
 	InitTopics [][]int // per slot: indices of topics it subscribes to initially (non-regex)
-	Prefill   int
+	Prefill    int
 	AutoCommit time.Duration
-	PollMax   int
-	PollEvery time.Duration
-	Steps     []GroupStep
+	PollMax    int
+	PollEvery  time.Duration
+	Steps      []GroupStep
 	// DefaultRevoke leaves OnPartitionsRevoked/Lost unset so the client's default revoke
 	// handling (blocking commit of non-dirty offsets) runs: C08. Ownership is then not tracked.
 	DefaultRevoke bool
+	// RevokeWork is how long OnPartitionsRevoked/Lost take (an application flushing state):
+	// the previous owner releases a partition only when its callback returns, possibly
+	// several heartbeat intervals after the revocation started.
+	RevokeWork time.Duration
+	// HB848 is the broker-dictated KIP-848 heartbeat interval in ms (0 = kfake's default of 5 s).
+	HB848 int
 }
 
-func GenGroupPlan(t *rapid.T) GroupPlan {
+// GroupFocus narrows GenGroupPlanF to a denser sub-domain of the same plan space.
+type GroupFocus struct {
+	Only848    bool // KIP-848 protocols only
+	Scarce     bool // always fewer partitions than members
+	SlowRevoke bool // revoke callbacks that outlast several (fast) heartbeats
+}
+
+func GenGroupPlan(t *rapid.T) GroupPlan { return GenGroupPlanF(t, GroupFocus{}) }
+
+func GenGroupPlanF(t *rapid.T, f GroupFocus) GroupPlan {
 	p := GroupPlan{}
 	p.Brokers = rapid.IntRange(1, 3).Draw(t, "brokers")
-	p.Protocol = rapid.SampledFrom([]string{"range", "roundrobin", "sticky", "coop", "coop", "848-uniform", "848-range"}).Draw(t, "protocol")
+	protos := []string{"range", "roundrobin", "sticky", "coop", "coop", "848-uniform", "848-range"}
+	if f.Only848 {
+		protos = []string{"848-uniform", "848-range"}
+	}
+	p.Protocol = rapid.SampledFrom(protos).Draw(t, "protocol")
+	// scarce plans have fewer partitions than members, so that rebalances leave members with
+	// nothing at all (a member losing its whole assignment takes different client paths)
+	scarce := rapid.IntRange(0, 2).Draw(t, "scarce") == 0 || f.Scarce
 	nt := rapid.IntRange(1, 3).Draw(t, "ntopics")
+	maxParts := 4
+	if scarce {
+		nt, maxParts = 1, 2
+	}
 	for i := 0; i < nt; i++ {
 		p.Topics = append(p.Topics, fmt.Sprintf("g%d", i))
-		p.Parts = append(p.Parts, int32(rapid.IntRange(1, 4).Draw(t, "parts")))
+		p.Parts = append(p.Parts, int32(rapid.IntRange(1, maxParts).Draw(t, "parts")))
 		p.Late = append(p.Late, i > 0 && rapid.IntRange(0, 3).Draw(t, "late") == 0)
 	}
 	p.Regex = rapid.IntRange(0, 3).Draw(t, "regex") == 0
 	p.Slots = rapid.IntRange(1, 5).Draw(t, "slots")
+	if scarce && p.Slots < 3 {
+		p.Slots = 3
+	}
 	for s := 0; s < p.Slots; s++ {
 		var ts []int
 		for i := 0; i < nt; i++ {
@@ -96,12 +126,18 @@ func GenGroupPlan(t *rapid.T) GroupPlan {
 		}
 		p.Steps = append(p.Steps, s)
 	}
+	p.RevokeWork = rapid.SampledFrom([]time.Duration{0, 0, 50 * time.Millisecond, 700 * time.Millisecond, 3 * time.Second}).Draw(t, "revokework")
+	p.HB848 = rapid.SampledFrom([]int{0, 100, 300}).Draw(t, "hb848")
+	if f.SlowRevoke {
+		p.RevokeWork = rapid.SampledFrom([]time.Duration{700 * time.Millisecond, 3 * time.Second}).Draw(t, "slowrevoke")
+		p.HB848 = rapid.SampledFrom([]int{100, 300}).Draw(t, "fasthb848")
+	}
 	return p
 }
 
 func (p GroupPlan) Brief() string {
 	var b strings.Builder
-	fmt.Fprintf(&b, "brokers=%d proto=%s topics=%v parts=%v late=%v regex=%v slots=%d init=%v prefill=%d autocommit=%v pollmax=%d pollevery=%v steps:", p.Brokers, p.Protocol, p.Topics, p.Parts, p.Late, p.Regex, p.Slots, p.InitTopics, p.Prefill, p.AutoCommit, p.PollMax, p.PollEvery)
+	fmt.Fprintf(&b, "brokers=%d proto=%s topics=%v parts=%v late=%v regex=%v slots=%d init=%v prefill=%d autocommit=%v pollmax=%d pollevery=%v revokework=%v hb848=%d steps:", p.Brokers, p.Protocol, p.Topics, p.Parts, p.Late, p.Regex, p.Slots, p.InitTopics, p.Prefill, p.AutoCommit, p.PollMax, p.PollEvery, p.RevokeWork, p.HB848)
 	for i, s := range p.Steps {
 		fmt.Fprintf(&b, " [%d +%v %s", i, s.Delay, s.Kind)
 		switch s.Kind {
@@ -153,26 +189,26 @@ type CommitEv struct {
 }
 
 type GroupObs struct {
-	Plan    GroupPlan
-	Log     *bubble.History
-	mu      sync.Mutex
-	Own     []OwnEv
-	Polls   []*PollEv
-	Commits []CommitEv
-	DualOwnership string
-	Moves   int // partitions that changed hands between two members that were both alive
-	Joined  int
-	Left    int
-	Live    map[string][]string // live member name -> subscribed topics at the end
-	TopicParts map[string]int32 // final partition counts of created topics
-	Returned map[TP]map[int64]bool
-	Truth    map[TP][]bubble.LogRec
-	Committed map[TP]int64
-	FinalOwner map[TP]string
-	Unowned  []TP
-	MultiOwned []string
+	Plan                  GroupPlan
+	Log                   *bubble.History
+	mu                    sync.Mutex
+	Own                   []OwnEv
+	Polls                 []*PollEv
+	Commits               []CommitEv
+	DualOwnership         string
+	Moves                 int // partitions that changed hands between two members that were both alive
+	Joined                int
+	Left                  int
+	Live                  map[string][]string // live member name -> subscribed topics at the end
+	TopicParts            map[string]int32    // final partition counts of created topics
+	Returned              map[TP]map[int64]bool
+	Truth                 map[TP][]bubble.LogRec
+	Committed             map[TP]int64
+	FinalOwner            map[TP]string
+	Unowned               []TP
+	MultiOwned            []string
 	RebalanceBetweenPolls bool
-	LeaveErrs []string
+	LeaveErrs             []string
 }
 
 type gmember struct {
@@ -194,7 +230,11 @@ func RunGroup(e *bubble.Env, p GroupPlan) *GroupObs {
 			o.TopicParts[t] = p.Parts[i]
 		}
 	}
-	e.StartCluster(bubble.ClusterOpts{Brokers: p.Brokers, Topics: seed})
+	var extra []kfake.Opt
+	if p.HB848 > 0 {
+		extra = append(extra, kfake.BrokerConfigs(map[string]string{"group.consumer.heartbeat.interval.ms": fmt.Sprint(p.HB848)}))
+	}
+	e.StartCluster(bubble.ClusterOpts{Brokers: p.Brokers, Topics: seed, Extra: extra})
 	admin := e.NewClient(kgo.ClientID("verif-admin"))
 	prod := e.NewClient(kgo.ClientID("verif-producer"), kgo.RecordPartitioner(kgo.ManualPartitioner()), kgo.ProducerLinger(0))
 	var nextID int64
@@ -275,6 +315,10 @@ func RunGroup(e *bubble.Env, p GroupPlan) *GroupObs {
 					}
 				}
 				sort.Slice(tps, func(i, j int) bool { return tps[i].String() < tps[j].String() })
+				if kind != "assigned" && p.RevokeWork > 0 && len(tps) > 0 {
+					o.Log.Add(kind+"-begin", 0, fmt.Sprintf("%s %v", name, tps), nil, 0, 0)
+					time.Sleep(p.RevokeWork)
+				}
 				o.mu.Lock()
 				defer o.mu.Unlock()
 				for _, tp := range tps {
